@@ -668,38 +668,106 @@ def oracle_billing_days(cs, bs, got, path, rows_override=None):
 # running the streams
 # =====================================================================================================
 
+CASE_TYPE = {
+    "asfreq": "list reading * list Z * list (Z * option Q * Q)",
+    "downsample": "list reading * list Z * list (Z * option Q)",
+    "spread": "list reading * list Z * list (Z * option Q)",
+    "dailyclass": "bool * inferred * list reading * list Z * class_result",
+    "billclass": "bool * inferred * list reading * list Z * class_result",
+    "cleanbill": "gran * list reading * list reading",
+    "cleanbill_est": "gran * list brow * option (list reading)",
+    "gran": "inferred * list Z * gran * option gran",
+    "grid": "list reading * Z * Z",
+}
+CHECK_FN = {"asfreq": "check_asfreq", "downsample": "check_downsample", "dailyclass": "check_daily_class",
+            "cleanbill": "check_clean_billing", "cleanbill_est": "check_clean_billing_est",
+            "spread": "check_asfreq_values", "billclass": "check_billing_class", "gran": "check_granularity",
+            "grid": "check_grid"}
+KEY_RE = re.compile(r"\bx[0-9a-f]{16}\b")
+
+
+class Rec:
+    """worker-side stand-in for (Run, Streams): records what a case did; the parent replays the events"""
+
+    def __init__(self, seed):
+        import random
+        self.rng = random.Random(seed)
+        self.events = []
+
+    # --- Run
+    def count(self, key, nontrivial=True):
+        self.events.append(("count", key, nontrivial))
+
+    def dist(self, k, v):
+        self.events.append(("dist", k, v))
+
+    def sample(self, obj):
+        self.events.append(("sample", obj))
+
+    def violation(self, sig, what, case=None, observation=None, generator=None):
+        self.events.append(("violation", sig, what, case, observation, generator))
+
+    def extra(self, k, v):
+        self.events.append(("extra", k, v))
+
+    # --- Streams
+    def define(self, text):
+        k = "x" + vlib.sha(text)
+        self.events.append(("define", k, text))
+        return k
+
+    def add(self, stream, term, info):
+        self.events.append(("add", stream, term, info))
+
+
 class Streams:
     def __init__(self, run):
         self.run = run
         self.prelude = {}
         self.items = {}     # stream -> list of (term, info)
 
-    def define(self, text):
-        k = "x" + vlib.sha(text)
-        self.prelude[k] = text
-        return k
-
-    def add(self, stream, term, info):
-        self.items.setdefault(stream, []).append((term, info))
+    def replay(self, events):
+        run = self.run
+        for e in events:
+            k = e[0]
+            if k == "count":
+                run.count(e[1], e[2])
+            elif k == "dist":
+                run.dist(e[1], e[2])
+            elif k == "sample":
+                run.sample(e[1])
+            elif k == "violation":
+                run.violation(e[1], e[2], case=e[3], observation=e[4], generator=e[5])
+            elif k == "extra":
+                run.cov.setdefault("refuted_witnesses", {})[e[1]] = e[2]
+            elif k == "define":
+                self.prelude[e[1]] = e[2]
+            elif k == "add":
+                self.items.setdefault(e[1], []).append((e[2], e[3]))
 
     def flush(self):
         run = self.run
-        pre = "\n".join("Definition %s := %s." % (k, t) for k, t in self.prelude.items())
-        fn = {"asfreq": "check_asfreq", "downsample": "check_downsample", "dailyclass": "check_daily_class",
-              "cleanbill": "check_clean_billing", "cleanbill_est": "check_clean_billing_est",
-              "spread": "check_asfreq_values", "billclass": "check_billing_class", "gran": "check_granularity",
-              "grid": "check_grid"}
         for stream, lst in self.items.items():
-            bad = run.coq_cases(stream, IMPORTS, pre, [t for t, _ in lst], fn[stream], shard=max(1, min(60, len(lst) // 12 + 1)))
+            keys = []
+            seen = set()
+            for t, _ in lst:
+                for k in KEY_RE.findall(t):
+                    if k not in seen and k in self.prelude:
+                        seen.add(k)
+                        keys.append(k)
+            pre = "\n".join("Definition %s := %s." % (k, self.prelude[k]) for k in keys)
+            shard = max(1, min(60, len(lst) // 14 + 1))
+            bad = run.coq_cases(stream, IMPORTS, pre, [t for t, _ in lst], CHECK_FN[stream], shard=shard,
+                                case_type=CASE_TYPE[stream])
             if bad is None:
                 run.proof_ok = False
                 continue
-            for i in bad[:8]:
+            for i in bad[:6]:
                 term, info = lst[i]
                 model = run.coq_eval(IMPORTS, pre, info["model_term"]) if info.get("model_term") else None
                 run.corr_failures.append({"stream": stream, "case": info["case"], "impl": info.get("impl"),
                                           "model": model})
-            for i in bad[8:]:
+            for i in bad[6:]:
                 run.corr_failures.append({"stream": stream, "case": lst[i][1]["case"]})
 
 
